@@ -38,14 +38,24 @@ Inductive counter :=
 | ProcOut (s : signal)        (* otelcol_processor_outgoing_items{otel.signal=s}             *)
 | ExpSent (s : signal)        (* otelcol_exporter_sent_...                                   *)
 | ExpFailed (s : signal)      (* otelcol_exporter_send_failed_...                            *)
-| ExpEnqFailed (s : signal).  (* otelcol_exporter_enqueue_failed_...                         *)
+| ExpEnqFailed (s : signal)   (* otelcol_exporter_enqueue_failed_...                         *)
+(* pseudo-counters: the SUM, over the spans that were recording, of the item attributes the helper
+   sets on the span of the operation (no instrument: read from the span recorder) *)
+| SpanAcc (s : signal)        (* accepted_{spans,metric_points,log_records} attribute of receiver spans *)
+| SpanRef (s : signal)        (* refused_...                                                            *)
+| SpanScraped (s : signal)    (* scraped_{metric_points,log_records} attribute of scraper spans         *)
+| SpanErrored (s : signal)    (* errored_...                                                            *)
+| SpanSent (s : signal)       (* items.sent attribute of exporter spans                                 *)
+| SpanFailed (s : signal).    (* items.failed                                                           *)
 
 Definition counter_eqb (a b : counter) : bool :=
   match a, b with
   | RecvAccepted s, RecvAccepted t | RecvRefused s, RecvRefused t
   | ScrScraped s, ScrScraped t | ScrErrored s, ScrErrored t
   | ProcIn s, ProcIn t | ProcOut s, ProcOut t
-  | ExpSent s, ExpSent t | ExpFailed s, ExpFailed t | ExpEnqFailed s, ExpEnqFailed t => signal_eqb s t
+  | ExpSent s, ExpSent t | ExpFailed s, ExpFailed t | ExpEnqFailed s, ExpEnqFailed t
+  | SpanAcc s, SpanAcc t | SpanRef s, SpanRef t | SpanScraped s, SpanScraped t | SpanErrored s, SpanErrored t
+  | SpanSent s, SpanSent t | SpanFailed s, SpanFailed t => signal_eqb s t
   | _, _ => false
   end.
 
@@ -75,11 +85,27 @@ Definition recv_end_op (s : signal) (n : Z) (err : bool) : ledger :=
   let ref := if err then n else 0 in
   recv_record_metrics s acc ref.
 
-(* one receive operation: EndTracesOp / EndMetricsOp / EndLogsOp *)
-Record recv_op := { ro_sig : signal; ro_n : Z; ro_err : bool }.
+(* receiverhelper/obsreport.go endOp, the `if span.IsRecording()` block: the item attributes are set
+   on the span only when it is recording (SDK tracer + sampled); the counters above are recorded
+   BEFORE and OUTSIDE that block, whatever the tracer provider / sampler is *)
+Definition recv_end_span (recording : bool) (s : signal) (n : Z) (err : bool) : ledger :=
+  let acc := if err then 0 else n in
+  let ref := if err then n else 0 in
+  if recording then
+    match s with
+    | Profiles => []
+    | _ => [(SpanAcc s, acc); (SpanRef s, ref)]
+    end
+  else [].
+
+Definition recv_end_op_full (recording : bool) (s : signal) (n : Z) (err : bool) : ledger :=
+  recv_end_op s n err ++ recv_end_span recording s n err.
+
+(* one receive operation: EndTracesOp / EndMetricsOp / EndLogsOp; ro_rec = the operation's span is recording *)
+Record recv_op := { ro_sig : signal; ro_n : Z; ro_err : bool; ro_rec : bool }.
 
 Definition recv_run (ops : list recv_op) : ledger :=
-  flat_map (fun o => recv_end_op (ro_sig o) (ro_n o) (ro_err o)) ops.
+  flat_map (fun o => recv_end_op_full (ro_rec o) (ro_sig o) (ro_n o) (ro_err o)) ops.
 
 (* ============================== scraper controller ===================================== *)
 
@@ -94,11 +120,13 @@ Record scr_res := { sr_items : Z; sr_metrics : Z; sr_err : scr_err }.
 
 (* obs_metrics.go wrapObsMetrics / obs_logs.go wrapObsLogs.  NB the metrics wrapper adds
    md.MetricCount() (not the data-point count) to scraped_metric_points. *)
-Definition scr_wrap (k : scr_kind) (r : scr_res) : ledger :=
+Definition scr_wrap (recording : bool) (k : scr_kind) (r : scr_res) : ledger :=
   let cnt := match k with KMetrics => sr_metrics r | KLogs => sr_items r end in
   let scraped := match sr_err r with SNone => cnt | SPartial _ => cnt | SFull => 0 end in
   let errored := match sr_err r with SPartial f => f | _ => 0 end in
-  [(ScrScraped (sig_of_kind k), scraped); (ScrErrored (sig_of_kind k), errored)].
+  [(ScrScraped (sig_of_kind k), scraped); (ScrErrored (sig_of_kind k), errored)] ++
+  (* `if span.IsRecording()`: attributes only; the two Add calls above are outside the block *)
+  (if recording then [(SpanScraped (sig_of_kind k), scraped); (SpanErrored (sig_of_kind k), errored)] else []).
 
 (* controller.go: `if err != nil && !IsPartialScrapeError(err) { continue }` *)
 Definition scr_kept (r : scr_res) : bool := match sr_err r with SFull => false | _ => true end.
@@ -107,13 +135,14 @@ Definition scr_offered (rs : list scr_res) : Z := sumZ (map sr_items (filter scr
 
 (* controller.go scrapeMetrics / scrapeLogs: BOTH bracket the consume call with
    StartMetricsOp / EndMetricsOp (S5: the logs controller should use the logs operation). *)
-Definition scrape (k : scr_kind) (rs : list scr_res) (down_err : bool) : ledger :=
-  flat_map (scr_wrap k) rs ++ recv_end_op Metrics (scr_offered rs) down_err.
+Definition scrape (recording : bool) (k : scr_kind) (rs : list scr_res) (down_err : bool) : ledger :=
+  flat_map (scr_wrap recording k) rs ++ recv_end_op_full recording Metrics (scr_offered rs) down_err.
 
 Record scr_op := { so_res : list scr_res; so_err : bool }.
 
-Definition scr_run (k : scr_kind) (ops : list scr_op) : ledger :=
-  flat_map (fun o => scrape k (so_res o) (so_err o)) ops.
+(* recording: the tracer provider of the receiver's telemetry settings produces recording spans *)
+Definition scr_run (recording : bool) (k : scr_kind) (ops : list scr_op) : ledger :=
+  flat_map (fun o => scrape recording k (so_res o) (so_err o)) ops.
 
 (* ============================== processor helper ====================================== *)
 
@@ -155,13 +184,15 @@ Definition eres_is_ok (r : eres) : bool := match r with ROk => true | _ => false
 Definition eres_is_shutdown (r : eres) : bool := match r with RShutdown => true | _ => false end.
 
 (* obs_report_sender.go endOp + toNumItems; no instruments for profiles *)
-Definition obs_end_op (s : signal) (items : Z) (r : eres) : ledger :=
+Definition obs_end_op (recording : bool) (s : signal) (items : Z) (r : eres) : ledger :=
   let sent := if eres_is_ok r then items else 0 in
   let failed := if eres_is_ok r then 0 else items in
   match s with
   | Profiles => []
   | _ => [(ExpSent s, sent); (ExpFailed s, failed)]
-  end.
+  end ++
+  (* `if span.IsRecording()`: items.sent / items.failed attributes (set for every signal) *)
+  (if recording then [(SpanSent s, sent); (SpanFailed s, failed)] else []).
 
 (* obs_queue.go Offer, error branch *)
 Definition obs_enqueue_failed (s : signal) (items : Z) : ledger :=
@@ -196,7 +227,8 @@ Record eopts := {
   o_wfr : bool;                   (* cfg.WaitForResult *)
   o_qbatch : option (Z * Z);      (* cfg.Batch: (MinSize, MaxSize), items sizer (config.Validate) *)
   o_batcher : option (Z * Z);     (* legacy WithBatcher: (MinSize, MaxSize) *)
-  o_retry : bool }.
+  o_retry : bool;
+  o_tracing : bool }.             (* the tracer provider produces recording spans (SDK + sampled) *)
 
 (* the queue-batch actually built *)
 Record qcfg := {
@@ -336,7 +368,7 @@ Section Exporter.
            s_wfr_failed := s_wfr_failed st; s_gauges := s_gauges st |}
     | (XDone r, outs') =>
         fire_all r ds
-          {| s_led := s_led st ++ obs_end_op sg items r; s_outs := outs'; s_next := s_next st;
+          {| s_led := s_led st ++ obs_end_op (o_tracing o) sg items r; s_outs := outs'; s_next := s_next st;
              s_queue := s_queue st; s_qsize := s_qsize st; s_ref := s_ref st; s_cur := s_cur st;
              s_flushq := s_flushq st; s_hung := s_hung st; s_down := s_down st;
              s_offered := s_offered st; s_stored := s_stored st;
@@ -547,7 +579,7 @@ Section Exporter.
     | None => st
     | Some (items, ds) =>
         fire_all RShutdown ds
-          {| s_led := s_led st ++ obs_end_op sg items RShutdown; s_outs := s_outs st; s_next := s_next st;
+          {| s_led := s_led st ++ obs_end_op (o_tracing o) sg items RShutdown; s_outs := s_outs st; s_next := s_next st;
              s_queue := s_queue st; s_qsize := s_qsize st; s_ref := s_ref st; s_cur := s_cur st;
              s_flushq := s_flushq st; s_hung := None; s_down := s_down st;
              s_offered := s_offered st; s_stored := s_stored st; s_shut := s_shut st + items;
